@@ -86,6 +86,11 @@ def main():
             for v in eng2.violations:
                 if (v.rule, v.key) not in set(k1):
                     v.msg = '[release profile only] ' + v.msg; eng.violations.append(v)
+        # the interpreter's own self-test corpus (functions with known semantics)
+        st = subprocess.run([sys.executable, os.path.join(VERIF, 'selftest', 'test_interp.py')], capture_output=True, text=True)
+        last = (st.stdout.strip().splitlines() or ['no output'])[-1] if st.returncode == 0 else (st.stdout + st.stderr)[-400:]
+        extra['interpreter_selftest'] = last
+        eng.ob(st.returncode == 0, prop, 'interpreter-selftest', 'cases', 'the abstract interpreter fails its self-test corpus: %s' % last)
         if getattr(mod, 'PROBES', None):
             import probes, pickle as _pk
             spath = os.path.join(CACHE, 'summ-%s.pkl' % meta['hash'])
